@@ -9,6 +9,7 @@ import (
 	"fmt"
 	"io"
 	"net/http"
+	"strconv"
 	"strings"
 	"sync"
 	"time"
@@ -333,7 +334,46 @@ func (sd *SessionData) Save(r *http.Request, w http.ResponseWriter) error {
 		}
 	}
 
+	// Delete chunk cookies the browser still holds from an earlier, longer token;
+	// otherwise they would be appended to the new value on the next request.
+	sd.deleteStaleChunkCookies(r, w, accessTokenCookie, len(sd.accessTokenChunks), options)
+	sd.deleteStaleChunkCookies(r, w, refreshTokenCookie, len(sd.refreshTokenChunks), options)
+
 	return nil
+}
+
+// deleteStaleChunkCookies emits a deleting Set-Cookie for every chunk cookie of baseName
+// present in the request whose index is not below keep.
+func (sd *SessionData) deleteStaleChunkCookies(r *http.Request, w http.ResponseWriter, baseName string, keep int, options *sessions.Options) {
+	prefix := baseName + "_"
+	// Candidates: chunk cookies sent by the browser and chunk cookies already written
+	// to this response by an earlier Save.
+	var names []string
+	for _, c := range r.Cookies() {
+		names = append(names, c.Name)
+	}
+	for _, line := range w.Header()["Set-Cookie"] {
+		if i := strings.IndexByte(line, '='); i > 0 {
+			names = append(names, line[:i])
+		}
+	}
+	seen := make(map[string]struct{})
+	for _, name := range names {
+		if !strings.HasPrefix(name, prefix) {
+			continue
+		}
+		if _, dup := seen[name]; dup {
+			continue
+		}
+		seen[name] = struct{}{}
+		index, err := strconv.Atoi(name[len(prefix):])
+		if err != nil || index < keep {
+			continue
+		}
+		expired := *options
+		expired.MaxAge = -1
+		http.SetCookie(w, sessions.NewCookie(name, "", &expired))
+	}
 }
 
 // Clear removes all session data associated with this SessionData instance.
